@@ -494,6 +494,33 @@ func c14Providers(c *Check) {
 	for i, m := range msgs {
 		c.Hold("R3b", "SASLAuth.AuthPlain:return"+itoa(i+1), r.FI.Decl.Pos(), m == "", m)
 	}
+	// the same for every other provider of the server that decides by asking further providers (auth.plain_separate):
+	// with an empty provider list a loop "remember the last error, return it" returns the zero value – success – for
+	// any password
+	prov := calling("~/framework/module.PlainAuth.AuthPlain")
+	c.P.AllFuncs(c.P.ServerPkgs(), func(fi *FuncInfo) {
+		if fi.Obj == r.FI.Obj || refName(fi.Obj) != "AuthPlain" || fi.Decl.Body == nil || strings.HasSuffix(c.P.Fset.Position(fi.Decl.Pos()).Filename, "_test.go") {
+			return
+		}
+		sig := fi.Obj.Type().(*types.Signature)
+		if sig.Recv() == nil || sig.Params().Len() != 2 || sig.Results().Len() != 1 || !isErrorType(sig.Results().At(0).Type()) {
+			return
+		}
+		delegates := false
+		for _, call := range callsIn(fi.Decl.Body) {
+			if prov(fi.Info(), call) {
+				delegates = true
+			}
+		}
+		if !delegates {
+			return
+		}
+		c.SawFunc(fi.Name())
+		ms, _ := c.CtxOf(fi).SuccessOnlyFrom(prov)
+		for i, m := range ms {
+			c.Hold("R3b", fi.Name()+":return"+itoa(i+1), fi.Decl.Pos(), m == "", m)
+		}
+	})
 }
 
 // R4, R5, R6
